@@ -114,6 +114,9 @@ def gen_tree(rng, spec, b, max_inst):
             cands = [ri for ri in cands if len(nts(ri)) == m]
         elif rng.random() < 0.8 and any(nts(ri) for ri in cands):
             cands = [ri for ri in cands if nts(ri)]
+            if rng.random() < 0.5:      # branching: the rules with most nonterminal edges
+                m = max(len(nts(ri)) for ri in cands)
+                cands = [ri for ri in cands if len(nts(ri)) == m]
         ri = rng.choice(cands)
         count[0] += 1
         if count[0] > max_inst: raise Overflow()
@@ -390,7 +393,7 @@ def run(tier, seed):
     while made < n_trees and attempts < 20 * n_trees:
         attempts += 1
         spec = gen.random_spec(rng, recursive=rng.random() < 0.75, dup_ext=False, start_arity0=rng.random() < 0.5,
-                               p_feature=0.3, allow_inf=False)
+                               p_feature=0.3, allow_inf=False, max_edges=5)
         spec["weights"] = int_weights(rng, spec)
         ids = rng.choice(["explicit", "implicit", "mixed"])
         try:
@@ -402,6 +405,7 @@ def run(tier, seed):
         t = gen_tree(rng, spec, b, target)
         if t is None: continue
         if made >= n_trees // 4 and t.size() < 3 and rng.random() < 0.8: continue   # enough tiny trees
+        if made >= n_trees // 3 and n_linearisations(t) == 1 and rng.random() < 0.6: continue   # enough chains
         made += 1
         n = t.size()
         hist_size[n] = hist_size.get(n, 0) + 1
@@ -466,9 +470,9 @@ def run(tier, seed):
         key = kind + ":" + {0: "returned", 1: "ValueError", 2: "KeyError", 3: "other"}[status]
         mal_obs[key] = mal_obs.get(key, 0) + 1
 
-    rcodes, k1 = run_model(REPL, [c for c, _ in repl_cases], seed=seed, tag="c15r", coq_sample=40)
-    lcodes, k2 = run_model(LIN, lin_cases, seed=seed, tag="c15l", coq_sample=25)
-    dcodes, k3 = run_model(DER, der_cases, seed=seed, tag="c15d", coq_sample=25)
+    rcodes, k1 = run_model(REPL, [c for c, _ in repl_cases], seed=seed, tag="c15r", coq_sample=15)
+    lcodes, k2 = run_model(LIN, lin_cases, seed=seed, tag="c15l", coq_sample=8)
+    dcodes, k3 = run_model(DER, der_cases, seed=seed, tag="c15d", coq_sample=8)
     exact = [0, 0]
     for (c, m), code in zip(repl_cases, rcodes):
         exact[1] += 1
